@@ -439,7 +439,17 @@ TreeSet_ixor(BTree* self, PyObject* other)
         Py_DECREF(v);
     }
     else {
-        iter = PyObject_GetIter(other);
+        /* Each key of `other` toggles membership exactly once, however
+         * often the iterable repeats it (as the binary ^ does).
+         */
+        PyObject* distinct = PyFrozenSet_New(other);
+        if (distinct == NULL) {
+            PyErr_Clear();
+            Py_INCREF(Py_NotImplemented);
+            return Py_NotImplemented;
+        }
+        iter = PyObject_GetIter(distinct);
+        Py_DECREF(distinct);
         if (iter == NULL) {
             PyErr_Clear();
             Py_INCREF(Py_NotImplemented);
